@@ -98,8 +98,8 @@ func VerifC19Reload() {
 		myCert.unsafe = []netip.Prefix{netip.MustParsePrefix("192.168.7.0/24")}
 	}
 	old := NewFirewall(c19Log, time.Hour, time.Hour, time.Hour, &vCert{name: "me", networks: myCert.networks})
-	old.rules = "in tcp/80"
 	verifAssume(old.AddRule(true, firewall.ProtoTCP, 80, 80, nil, "any", "", "", "", "") == nil)
+	old.rules = "in tcp/80" // the rules text (AddRule builds it with fmt.Sprintf, which the executor does not format)
 	old.rulesVersion = verifU16("old_version")
 	peerAddr := netip.AddrFrom4([4]byte{10, 1, 0, 2})
 	peer := &vCert{name: "peer", issuer: "sha-one", networks: []netip.Prefix{netip.PrefixFrom(peerAddr, 16)}}
@@ -118,11 +118,11 @@ func VerifC19Reload() {
 	stillAllows := verifBool("new_rules_still_allow_the_flow")
 	nf := NewFirewall(c19Log, time.Hour, time.Hour, time.Hour, myCert)
 	if stillAllows {
-		nf.rules = "in tcp/80"
 		verifAssume(nf.AddRule(true, firewall.ProtoTCP, 80, 80, nil, "any", "", "", "", "") == nil)
+		nf.rules = "in tcp/80"
 	} else {
-		nf.rules = "in tcp/443"
 		verifAssume(nf.AddRule(true, firewall.ProtoTCP, 443, 443, nil, "any", "", "", "", "") == nil)
+		nf.rules = "in tcp/443"
 	}
 	c19NewFW = nf
 	if loadFails {
